@@ -14,6 +14,11 @@ package keep_fields
 // not a child of the path node, or it is an inner path node under which no
 // configured target exists in the event (the recursive call said so).
 
+// "This object contains something kept" only ever rises while the object's fields are
+// walked: once a configured child was kept (a leaf of the path tree, or a nested path
+// that resolved), the object reports kept to its parent - ghost anyKept, set at the
+// path-tree lookup and at the recursive call, not at source anchors.
+
 //@ func (*Plugin).traverseFieldsTree
 //@   requires 0 <= depth && uf_height(ref(fpNode.children)) >= 0 && depth + uf_height(ref(fpNode.children)) <= len(p.fieldsDepthSlice)
 //@   requires len(fpNode.children) != 0 ==> uf_height(ref(fpNode.children)) >= 1
@@ -25,13 +30,19 @@ package keep_fields
 //@   loop 2 invariant len(p.fieldsDepthSlice) == old(len(p.fieldsDepthSlice)) && depth < len(p.fieldsDepthSlice)
 //@   loop 2 invariant forall k :: depth < k && k < len(p.fieldsDepthSlice) ==> len(p.fieldsDepthSlice[k]) == 0
 //@   ghost leaf bool = false
+//@   ghost anyKept bool = false
+//@   ensures anyKept ==> result
+//@   loop 1 invariant anyKept ==> shouldPreserveNode
+//@   loop 2 invariant anyKept ==> shouldPreserveNode
 //@   setat "if len(childNode.children) == 0 {" leaf := (len(childNode.children) == 0)
 //@   assert at "p.fieldsDepthSlice[depth] = append(p.fieldsDepthSlice[depth], eventField)" !ok || (!leaf && !exists)
 //@   callee maplookup:children(k) (v, ok)
 //@     ensures ok ==> uf_height(ref(v.children)) >= 0 && uf_height(ref(v.children)) < uf_height(ref(fpNode.children))
 //@     ensures ok && len(v.children) != 0 ==> uf_height(ref(v.children)) >= 1
-//@   callee traverseFieldsTree(f, e, d)
+//@     set anyKept := anyKept || (ok && len(v.children) == 0)
+//@   callee traverseFieldsTree(f, e, d) (r)
 //@     requires d == depth + 1
+//@     set anyKept := anyKept || r
 //@   callee IsObject()
 //@     pure
 //@   callee AsFields()
